@@ -325,6 +325,13 @@ theorem projects_stamp (s : Sys F) (idx : Nat) (weak ld ccb : Bool) (cct : Nat) 
     Projects s (.stamp idx weak ld ccb cct) :=
   projects_frame s _ rfl (fun h => h) rfl (stamp_flags_cids _ _ _ _ _ _).1 (stamp_flags_cids _ _ _ _ _ _).2
 
+theorem projects_syncTimeout (s : Sys F) : Projects s .syncTimeout := by
+  refine projects_frame s _ rfl (fun h => h) rfl ?_ ?_
+  · show flags (s.links.map _) = flags s.links
+    unfold flags; rw [List.map_map]; rfl
+  · show cids (s.links.map _) = cids s.links
+    unfold cids; rw [List.map_map]; rfl
+
 /-- **Client event**: `reg` is untouched; a link's flag either stays or is cleared (tear-down after a
 failed send), which is what the `drop` events do. -/
 theorem projects_client (s : Sys F) (now : Nat) (pkt : Bytes) : Projects s (.client now pkt) := by
@@ -895,6 +902,7 @@ theorem projects (s : Sys F) (e : Ev) : Projects s e := by
   | failNext cid => exact projects_failNext s cid
   | failBind cid => exact projects_failBind s cid
   | stamp idx weak ld ccb cct => exact projects_stamp s idx weak ld ccb cct
+  | syncTimeout => exact projects_syncTimeout s
 
 /-! ## 7. Runs of the shell, and the ghost observer along them -/
 
@@ -2054,6 +2062,12 @@ theorem att_step {i cid D : Nat} {s : Sys F} (h : Att i cid D s) (hok : RegOk s.
     · split
       · exact FreshAt.of_rf (l := l) (show rf _ = rf l from rfl) hf
       · exact hf
+  | syncTimeout =>
+    refine ⟨h.keep h.pending rfl h.nofail h.nobind (fun l hl => ?_), fun _ he => by cases he⟩
+    refine ⟨{ l with connTimeoutMs := s.cfg.connTimeoutMs }, ?_, rfl, fun t hf => ?_⟩
+    · show (s.links.map fun l => ({ l with connTimeoutMs := s.cfg.connTimeoutMs } : FLink F))[i]? = _
+      rw [List.getElem?_map, hl]; rfl
+    · exact FreshAt.of_rf (l := l) (show rf _ = rf l from rfl) hf
 
 /-- **Run form.**  Start observing in any reachable state in which uplink `i` is pending with deadline
 `D` (e.g. right after the first REG1 of the attempt at `t0`: `D = t0 + 4000`).  Along every
